@@ -24,12 +24,16 @@ class Defs(str):
 
 
 def load(defs, mode, compiled):
-    cs = new_cs(mode)
+    # mode["loaded_as"]: the byte order the object had WHILE the definitions were loaded (and compiled); it is switched to
+    # mode["endian"] afterwards - the byte order in force at call time is the one that counts (C05), for both readers (C03)
+    cs = new_cs(dict(mode, endian=mode.get("loaded_as", mode["endian"])))
     if getattr(defs, "parts", None):
         for text, align in defs.parts:
             cs.load(text, compiled=compiled, align=align)
     else:
         cs.load(defs, compiled=compiled, align=mode["align"])
+    if "loaded_as" in mode:
+        cs.endian = mode["endian"]
     return cs
 
 
@@ -180,6 +184,8 @@ def gen_scenario(rnd, cfg=None, mode=None, top_union=0.12):
         t = g.struct(union=(rnd.random() < top_union and g.cfg["union"]))
         if not absyn.has_dup_names(t):
             break
+    if g.cfg.get("endian_switch", True) and rnd.random() < 0.1:
+        mode = dict(mode, loaded_as="<" if mode["endian"] == ">" else ">")
     scn = {"type": t, "mode": mode, "consts": dict(g.consts), "defs": absyn.render(t, g.consts)}
     if g.cfg.get("mixalign", True) and rnd.random() < 0.12:
         return mix_alignment(scn, rnd) or scn
